@@ -10,8 +10,21 @@ Besides the driver this module holds the INDEPENDENT judges of what a ceremony l
     the bundle's own inception/expiration, and accepted by dnspython's `validate_rrsig` with ONLY the named key on offer;
     optionally the schema roles (published 257 / revoked 385 / signers of slot i, by slot NUMBER) and the echoed ZSKs;
   * `output_files()`  — the family of files a ceremony may find at its output path (absent, short, 300 kB filler,
-    an earlier / longer SKR).
-None of them calls into /repo."""
+    an earlier / longer SKR);
+  * `reader_mismatch()` — the repository's own reading of an emitted file against the ElementTree reading of the same bytes
+    (an emitted SKR must mean to the tools' loader what it means to a standard XML parser);
+  * `align_to_document()` — the SKR the model writes, its set-like parts (keys of equal tag, signatures, algorithms) put in
+    the order the file shows, so that the model's writer (`skr_to_xml` of driver kskm_driver_pkge, C11's model) predicts
+    the file BYTE FOR BYTE (`predicted_bytes()`).
+None of them calls into /repo (reader_mismatch takes the repository's reading as an argument).
+
+FILE-NAME FAULTS (`file_faults=` of run_ceremony): every file the entry point takes — previous SKR, KSR, output, the
+configuration file itself — can be named in the configuration (`filenames:`), on the command line, or both; the name
+handed over by either source can be made one that does not lead to a usable file: a typo beside the right file
+(`missing`), a directory, an empty file, a file without read permission, a dangling symbolic link, a path THROUGH a
+regular file; for the output: an existing directory, a directory that does not exist, a path through a regular file,
+a file without write permission.  `TEXT_PROFILES` / `Text`: non-ASCII but legal text for everything that is copied from
+the configuration, the token and the KSR into an SKR (KSK labels, ZSK identifiers, request and bundle ids)."""
 
 from __future__ import annotations
 
@@ -39,6 +52,11 @@ SENTINEL = b"PRE-EXISTING OUTPUT - MUST SURVIVE AN UNSUCCESSFUL RUN\n"
 # tail is never mistaken for padding
 FILLER_300K = b"".join(b"<!-- stale line %06d of an earlier, longer file at the output path -->\n" % i for i in range(4400))
 PREV_MODES = ("config", "cli", "both")  # where the previous SKR's file name comes from
+# names that do not lead to a usable input file / output file (see the module docstring)
+FILE_FAULTS_IN = ("missing", "directory", "empty", "unreadable", "dangling-symlink", "parent-is-a-file")
+FILE_FAULTS_OUT = ("directory", "missing-parent", "parent-is-a-file", "unwritable")
+# of these, the names that are not an existing regular file (the configuration schema wants one for its INPUT files)
+NOT_A_FILE = {"missing", "directory", "dangling-symlink", "parent-is-a-file"}
 
 
 def scratch_dir(tag: str) -> Path:
@@ -121,6 +139,8 @@ def run_ceremony(
     hsm_arg: str | None = None,
     ksk_policy_extra: dict[str, Any] | None = None,
     files_via: str = "config",
+    file_faults: dict[str, str] | None = None,
+    cfg_ksr_xml: str | None = None,
 ) -> dict[str, Any]:
     """One ceremony on the real entry point. Returns observations + the model input line.
 
@@ -128,55 +148,90 @@ def run_ceremony(
     (`--previous_skr`); when both are given the command line wins (theorem cli_previous_skr_wins).
     preexisting: the bytes found at the output path before the run (None = no file).
     files_via: "config" = KSR and output path come from `filenames:`; "cli" = from the positional arguments (the
-    configuration then names other, non-existent files)."""
+    configuration then names other files: a KSR that is not one — or `cfg_ksr_xml` — and another output path);
+    "cli-only" = from the positional arguments, the configuration names neither.
+    file_faults: {role: kind}, role in prev_cfg / prev_cli / ksr_cfg / ksr_cli / out_cfg / out_cli / config, kind in
+    FILE_FAULTS_IN (FILE_FAULTS_OUT for out_*), or "empty-string" for a command-line name: the name that source hands
+    over does not lead to a usable file (the intended content, when there is one, lies beside it).  The model is then
+    told the outcome of reading the name the documented precedence picks (command line before configuration), read by
+    the harness itself.  obs["fault_effective"] is False when the process can use the file all the same (uid 0 and
+    permission bits)."""
     from kskm.common.config import KSKMConfig
     from kskm.ksr.load import request_from_xml
     from kskm.skr.load import response_from_xml
     from kskm.tools import ksrsigner as tool
 
+    if file_faults:
+        # a directory of its own, emptied before every run: broken names must not leak into the next ceremony
+        workdir = workdir / "file-faults"
+        shutil.rmtree(workdir, ignore_errors=True)
     workdir.mkdir(parents=True, exist_ok=True)
     req = sc.request()
     if ksr_xml is None:
         ksr_xml = C.request_to_xml(req)
     ksr_path = workdir / "ksr.xml"
-    ksr_path.write_text(ksr_xml)
+    ksr_path.write_text(ksr_xml, encoding="utf-8")
     prev_path = None
     if prev_xml is not None:
         prev_path = workdir / "prev-skr.xml"
-        prev_path.write_text(prev_xml)
+        prev_path.write_text(prev_xml, encoding="utf-8")
     prev_cli_path = None
     if prev_cli_xml is not None:
         prev_cli_path = workdir / "prev-skr-commandline.xml"
-        prev_cli_path.write_text(prev_cli_xml)
+        prev_cli_path.write_text(prev_cli_xml, encoding="utf-8")
     out_path = workdir / "skr.xml"
     if preexisting is not None:
         out_path.write_bytes(preexisting)
     elif out_path.exists():
         out_path.unlink()
-    cli_files = files_via == "cli"
+    cli_files = files_via in ("cli", "cli-only")
     # the files the configuration names when the command line names the real ones: they exist (the configuration schema wants
-    # an existing input file), hold nothing usable, and must neither be read as the KSR nor written to
+    # an existing input file), hold nothing usable (unless cfg_ksr_xml says otherwise), and must neither be read as the KSR nor
+    # written to
     decoy = workdir / "not-this-one"
-    if cli_files:
+    if files_via == "cli":
         decoy.mkdir(exist_ok=True)
-        (decoy / "ksr.xml").write_text("<KSR this is the file the configuration names, the command line names another one")
+        (decoy / "ksr.xml").write_text(cfg_ksr_xml if cfg_ksr_xml is not None else "<KSR this is the file the configuration names, the command line names another one", encoding="utf-8")
         (decoy / "skr.xml").unlink(missing_ok=True)
-    cfgd = config_dict(
-        sc,
-        "s",
-        {"input_ksr": str(decoy / "ksr.xml") if cli_files else str(ksr_path), "previous_skr": str(prev_path) if prev_path else None, "output_skr": str(decoy / "skr.xml") if cli_files else str(out_path)},
-        rp_extra,
-        ksk_policy_extra,
-    )
+    cfg_path = workdir / "ksrsigner.yaml"
+    # what each source hands to the entry point (None = that source names nothing)
+    names: dict[str, str | None] = {
+        "prev_cfg": str(prev_path) if prev_path else None,
+        "prev_cli": str(prev_cli_path) if prev_cli_path else None,
+        "ksr_cfg": str(decoy / "ksr.xml") if files_via == "cli" else None if files_via == "cli-only" else str(ksr_path),
+        "ksr_cli": str(ksr_path) if cli_files else None,
+        "out_cfg": str(decoy / "skr.xml") if files_via == "cli" else None if files_via == "cli-only" else str(out_path),
+        "out_cli": str(out_path) if cli_files else None,
+        "config": str(cfg_path),
+    }
+    effective = True
+    for role, kind in (file_faults or {}).items():
+        if role == "config":
+            continue  # broken after it has been written, below
+        if names[role] is None and kind != "empty-string":
+            raise ValueError(f"file fault for {role}, which names nothing in this run")
+        names[role], eff = break_name(Path(names[role] or "unnamed"), kind, output=role.startswith("out_"))
+        effective = effective and eff
+    # the output path the run is ASKED to write (command line before configuration) and the one it must not touch
+    asked_out = Path(names["out_cli"] or names["out_cfg"] or out_path)
+    other_out = Path(names["out_cfg"]) if (names["out_cli"] and names["out_cfg"]) else None
+    cfgd = config_dict(sc, "s", {"input_ksr": names["ksr_cfg"], "previous_skr": names["prev_cfg"], "output_skr": names["out_cfg"]}, rp_extra, ksk_policy_extra)
     if cfg_mutator:
         cfgd = cfg_mutator(cfgd)
-    cfg_path = workdir / "ksrsigner.yaml"
-    cfg_path.write_text(yaml.safe_dump(cfgd, sort_keys=False))  # (a YAML mapping is ordered: keep the schema's listing order)
+    # (a YAML mapping is ordered: keep the schema's listing order; non-ASCII text is written as such, UTF-8, as an operator's editor does)
+    cfg_path.write_text(yaml.safe_dump(cfgd, sort_keys=False, allow_unicode=True), encoding="utf-8")
+    if file_faults and "config" in file_faults:
+        names["config"], eff = break_name(cfg_path, file_faults["config"], output=False)
+        effective = effective and eff
+    state_before = path_state(asked_out)
+    other_before = path_state(other_out) if other_out is not None else None
     world = sc.world()
     prompt = Prompt(answer)
     if now_us is None:
         now_us = lib.dt_us(sc.start) - 5 * lib.DAY_US
     obs: dict[str, Any] = {"world": world, "prompt": prompt, "preexisting": preexisting, "prev_mode": "none" if (prev_xml is None and prev_cli_xml is None) else "both" if (prev_xml is not None and prev_cli_xml is not None) else "cli" if prev_cli_xml is not None else "config"}
+    obs["names"] = dict(names)
+    obs["fault_effective"] = effective
     stdout = io.StringIO()
     orig_input = builtins.input
     with world.installed(), C.Oracles() as orc, lib.PinnedClock() as clock, contextlib.redirect_stdout(stdout):
@@ -184,7 +239,7 @@ def run_ceremony(
         builtins.input = prompt
         try:
             if use_main:
-                obs["outcome"], obs["exit"] = run_main(tool, workdir, cfg_path, schema_arg, force, hsm_arg, prev_cli_path, (ksr_path, out_path) if cli_files else None)
+                obs["outcome"], obs["exit"] = run_main(tool, workdir, names["config"], schema_arg, force, hsm_arg, names["prev_cli"], (names["ksr_cli"], names["out_cli"]) if cli_files else None)
             else:
                 try:
                     config = KSKMConfig.from_dict(copy.deepcopy(cfgd))  # (_transform_config pops keys out of nested dicts)
@@ -193,7 +248,7 @@ def run_ceremony(
                     obs["outcome"] = lib.classify_exception(exc)
                 if config is not None:
                     args = argparse.Namespace(
-                        schema=schema_arg, previous_skr=(str(prev_cli_path) if prev_cli_path else None), ksr=(str(ksr_path) if cli_files else None), skr=(str(out_path) if cli_files else None), config=str(cfg_path), force=force, hsm=hsm_arg,
+                        schema=schema_arg, previous_skr=names["prev_cli"], ksr=names["ksr_cli"], skr=names["out_cli"], config=names["config"], force=force, hsm=hsm_arg,
                         log_ksr_contents=False, log_skr_contents=False, log_previous_skr_contents=False, debug=False, syslog=False,
                     )
                     obs["outcome"] = lib.run_impl(lambda: tool.ksrsigner(logging.getLogger("verif"), args, config), bool)
@@ -202,16 +257,21 @@ def run_ceremony(
         obs["oracles"] = orc.take()
     obs["stdout"] = stdout.getvalue()
     obs["log"] = C.canon_log(world.log)
-    obs["file_after"] = out_path.read_bytes() if out_path.exists() else None
-    obs["written"] = obs["file_after"] is not None and obs["file_after"] != preexisting
+    state_after = path_state(asked_out)
+    obs["output_state"] = (state_before, state_after)  # what the name of the output leads to, before and after (file bytes / directory listing / nothing)
+    obs["file_after"] = state_after[1] if state_after[0] == "file" else None
+    if file_faults and any(r.startswith("out_") for r in file_faults):
+        obs["preexisting"] = state_before[1] if state_before[0] == "file" else None
+    obs["written"] = obs["file_after"] is not None and obs["file_after"] != obs["preexisting"]
     obs["sign_ops"] = sum(1 for r in obs["log"] if r["op"] == "sign")
-    obs["stray_output"] = cli_files and (decoy / "skr.xml").exists()  # something was written to the path the command line overrides
+    # something was written to the path the command line overrides
+    obs["stray_output"] = other_out is not None and path_state(other_out) != other_before
     # ---- model line ----------------------------------------------------------------------------
     try:
         config = KSKMConfig.from_dict(copy.deepcopy(cfgd))
     except Exception:  # noqa: BLE001
         config = None
-    if config is not None:
+    if config is not None and not (file_faults and "config" in file_faults):
 
         def parsed(text: str | None, fn: Any, conv: Any) -> Any:
             if text is None:
@@ -229,8 +289,8 @@ def run_ceremony(
             "op": "ksrsigner",
             "actions": actions,
             # documented precedence: a previous SKR named on the command line wins over the configured one
-            "prev": parsed(prev_cli_xml if prev_cli_xml is not None else prev_xml, response_from_xml, lib.response_j),
-            "ksr": parsed(ksr_xml, request_from_xml, lib.request_j),
+            "prev": parsed(prev_cli_xml if prev_cli_xml is not None else prev_xml, response_from_xml, lib.response_j) if not file_faults else read_outcome(picked(names["prev_cli"], names["prev_cfg"]), response_from_xml, lib.response_j),
+            "ksr": parsed(ksr_xml, request_from_xml, lib.request_j) if not file_faults else read_outcome(picked(names["ksr_cli"], names["ksr_cfg"]), request_from_xml, lib.request_j),
             "hsm": C.hsm_j(config),
             "hsmName": hsm_arg,
             "force": force,
@@ -244,6 +304,86 @@ def run_ceremony(
             **obs["oracles"],
         }
     return obs
+
+
+def picked(cli: str | None, cfg: str | None) -> str | None:
+    """The documented precedence of file names: a (non-empty) command-line value before the configured one
+    (the model's `pickFile`; the two are compared by corr_C03 through the driver's `pick_file`)."""
+    return cli if cli else cfg
+
+
+def read_outcome(name: str | None, parse: Any, conv: Any) -> Any:
+    """What reading + parsing the file `name` comes to, read by the harness itself: None = no name, a failure when the
+    name does not lead to a readable file, otherwise the repository parser's outcome on its text (parsing is C12/C13's
+    subject, its outcome is an input of the ceremony model)."""
+    if name is None:
+        return None
+    try:
+        data = Path(name).read_bytes()
+    except OSError:
+        return {"error": "other"}
+    try:
+        text = data.decode("utf-8")
+    except UnicodeDecodeError:
+        return {"error": "unicode"}
+    return lib.run_impl(lambda: parse(text), conv)
+
+
+def break_name(path: Path, kind: str, *, output: bool) -> tuple[str, bool]:
+    """Make the name a source hands over one that does not lead to a usable file (see FILE_FAULTS_IN / FILE_FAULTS_OUT).
+    `path` holds the intended content already (input files) or whatever lies at the output path.  Returns the name to hand
+    over and whether the fault is effective for THIS process (permission bits mean nothing to uid 0)."""
+    if kind == "empty-string":
+        return "", True
+    if kind == "missing":  # a typo: the right file lies beside the name
+        typo = path.with_name(path.name.replace("-", "_", 1) if "-" in path.name else path.stem + "_" + path.suffix)
+        assert not typo.exists() and not typo.is_symlink()
+        return str(typo), True
+    if kind == "directory":
+        content = path.read_bytes() if path.is_file() else None
+        path.unlink(missing_ok=True)
+        path.mkdir()
+        if content is not None and not output:
+            (path / path.name).write_bytes(content)  # the file is IN the directory that was named
+        return str(path), True
+    if kind == "empty":
+        path.write_bytes(b"")
+        return str(path), True
+    if kind == "unreadable":
+        path.chmod(0)
+        return str(path), not os.access(path, os.R_OK)
+    if kind == "dangling-symlink":
+        path.unlink(missing_ok=True)
+        path.symlink_to(path.with_name("moved-away-" + path.name))
+        return str(path), True
+    if kind == "parent-is-a-file":  # the name goes THROUGH a regular file
+        if not path.exists():
+            path.write_bytes(SENTINEL)
+        return str(path / path.name), True
+    if kind == "missing-parent" and output:
+        return str(path.with_name("no-such-directory") / path.name), True
+    if kind == "unwritable" and output:
+        if not path.exists():
+            path.write_bytes(SENTINEL)
+        path.chmod(0o444)
+        return str(path), not os.access(path, os.W_OK)
+    raise ValueError(f"unknown file fault {kind!r} ({'output' if output else 'input'})")
+
+
+def path_state(p: Path) -> tuple[str, Any]:
+    """What a name leads to: ("absent", None) | ("file", bytes) | ("dir", sorted listing) | ("other", description)."""
+    try:
+        if p.is_symlink() and not p.exists():
+            return ("dangling-symlink", os.readlink(p))
+        if p.is_dir():
+            return ("dir", sorted(x.name for x in p.iterdir()))
+        if p.is_file():
+            return ("file", p.read_bytes())
+        if not p.exists():
+            return ("absent", None)
+    except OSError as exc:  # e.g. a path through a regular file
+        return ("unreachable", type(exc).__name__)
+    return ("other", None)
 
 
 def listed_actions(cfgd: dict[str, Any], schema_arg: str) -> list[dict[str, Any]] | None:
@@ -265,7 +405,7 @@ def listed_actions(cfgd: dict[str, Any], schema_arg: str) -> list[dict[str, Any]
         return None
 
 
-def run_main(tool: Any, workdir: Path, cfg_path: Path, schema_arg: str, force: bool, hsm_arg: str | None, prev_cli_path: Path | None = None, cli_files: tuple[Path, Path] | None = None) -> tuple[Any, int]:
+def run_main(tool: Any, workdir: Path, cfg_path: Path | str, schema_arg: str, force: bool, hsm_arg: str | None, prev_cli_path: Path | str | None = None, cli_files: tuple[Path | str | None, Path | str | None] | None = None) -> tuple[Any, int]:
     """Call main() in-process: argv patched, cwd = workdir (main() opens a log file there)."""
     argv = ["ksrsigner", "--config", str(cfg_path), "--schema", schema_arg]
     if force:
@@ -275,7 +415,7 @@ def run_main(tool: Any, workdir: Path, cfg_path: Path, schema_arg: str, force: b
     if prev_cli_path is not None:
         argv += ["--previous_skr", str(prev_cli_path)]
     if cli_files is not None:
-        argv += [str(cli_files[0]), str(cli_files[1])]
+        argv += [str(x) for x in cli_files if x is not None]
     old_argv, old_cwd = sys.argv, os.getcwd()
     root = logging.getLogger()
     before = list(root.handlers)
@@ -536,3 +676,224 @@ def output_files(earlier_skr: bytes | None = None) -> list[tuple[str, bytes | No
         out.append(("earlier-skr", earlier_skr))
         out.append(("earlier-skr-longer", earlier_skr + b"<!-- " + b"x" * 9000 + b" -->\n"))
     return out
+
+
+# --------------------------------------------------------------------------------------
+# non-ASCII but legal text in everything that is copied into an SKR
+# --------------------------------------------------------------------------------------
+
+
+class Text:
+    """How a history spells what ends up in its SKRs.  KSK labels must fit the configuration's `^[\\w_]+$` (Unicode-aware:
+    letters and digits of any script, no combining marks, no punctuation); ZSK key identifiers, request ids and bundle ids
+    are xsd:string in schema/ksr.rnc (no quote, `<`, `&` here: escaping is C11/C13's subject)."""
+
+    def __init__(self, name: str, ksk: str, zsk: str, rid: str) -> None:
+        self.name = name
+        self._ksk, self._zsk, self._rid = ksk, zsk, rid
+
+    def ksk(self, label: str) -> str:
+        return self._ksk.format(label)
+
+    def zsk(self, ident: str) -> str:
+        return self._zsk.format(ident)
+
+    def rid(self, rid: str) -> str:
+        return self._rid.format(rid)
+
+
+TEXT_PROFILES: dict[str, Text] = {
+    # Latin-1 letters (two bytes each in UTF-8; one byte in ISO 8859-1 — a writer or reader in the wrong charset shows)
+    "latin-1": Text("latin-1", "{}_jürgen_ñ", "zône-{}-é", "demande-ß-{}"),
+    # other scripts of the basic plane (three bytes in UTF-8), Greek, Cyrillic, Han, Arabic-Indic digits (\w as well)
+    "scripts": Text("scripts", "{}_ключ_鍵_κλειδί٣", "{}-зона-区域", "{}-запрос-请求"),
+    # beyond the basic plane (four bytes in UTF-8, a surrogate pair in UTF-16): mathematical script letters are \w
+    "astral": Text("astral", "{}_𝒦𝓈𝓀", "{}-🔑", "{}-📜-𐍈"),
+    # characters that a normalising layer would change: ANGSTROM SIGN U+212B and the fi ligature (both \w), decomposed
+    # accents (NFD) in the identifiers that are free text
+    "unnormalised": Text("unnormalised", "{}_\u212bngstr\ufb01", "zu\u0308rich-{}", "re\u0301q-{}"),
+}
+
+
+def apply_text(sc: S.Scenario, text: Text | None, *, rid: bool = True) -> S.Scenario:
+    """Re-spell a scenario (in place): KSK labels in the configuration and on the token, ZSK identifiers, request id
+    (and with it the bundle ids).  Apply BEFORE token edits that capture labels."""
+    if text is None:
+        return sc
+    for k in sc.ksks.values():
+        k["label"] = text.ksk(k["label"])
+        k["entry"] = dict(k["entry"], label=k["label"])
+    sc.zsks = [(text.zsk(i), tk, a) for i, tk, a in sc.zsks]
+    if rid:
+        sc.req_id = text.rid(sc.req_id)
+    sc.meta = dict(sc.meta, text=text.name)
+    return sc
+
+
+def rewrite_header(ksr_xml: str, *, id: str | None = None, serial: int | None = None, domain: str | None = None) -> str:  # noqa: A002
+    """The KSR with other header attributes (no signature covers them).  Works on the plain form C.request_to_xml writes."""
+    import re
+
+    m = re.search(r'<KSR id="([^"]*)" domain="([^"]*)" serial="([^"]*)">', ksr_xml)
+    if not m:
+        raise ValueError("not the plain KSR form")
+    new = f'<KSR id="{m.group(1) if id is None else id}" domain="{m.group(2) if domain is None else domain}" serial="{m.group(3) if serial is None else serial}">'
+    return ksr_xml[: m.start()] + new + ksr_xml[m.end() :]
+
+
+def rewrite_bundle_id(ksr_xml: str, index: int, new_id: str) -> str:
+    """The KSR with the id of its `index`-th RequestBundle replaced (no signature covers it)."""
+    import re
+
+    ms = list(re.finditer(r'<RequestBundle id="([^"]*)">', ksr_xml))
+    m = ms[index]
+    return ksr_xml[: m.start()] + f'<RequestBundle id="{new_id}">' + ksr_xml[m.end() :]
+
+
+# --------------------------------------------------------------------------------------
+# the emitted file: the repository's reading against a standard parser's; the model's bytes
+# --------------------------------------------------------------------------------------
+
+
+def first_difference(a: Any, b: Any, path: str = "") -> str | None:
+    """Where two JSON values first differ (a path and the two values), None when equal."""
+    if type(a) is not type(b):
+        return f"{path or '/'}: {a!r} != {b!r}"[:300]
+    if isinstance(a, dict):
+        for k in sorted(set(a) | set(b)):
+            if k not in a or k not in b:
+                return f"{path}/{k}: only on one side"
+            d = first_difference(a[k], b[k], f"{path}/{k}")
+            if d:
+                return d
+        return None
+    if isinstance(a, list):
+        if len(a) != len(b):
+            return f"{path}: {len(a)} != {len(b)} elements"
+        for i, (x, y) in enumerate(zip(a, b)):
+            d = first_difference(x, y, f"{path}[{i}]")
+            if d:
+                return d
+        return None
+    return None if a == b else f"{path or '/'}: {a!r} != {b!r}"[:300]
+
+
+def reader_mismatch(xml_bytes: bytes, repo_reading: Any) -> str | None:
+    """An emitted SKR must be to the tools' own loader what it is to a standard XML parser: `repo_reading` (the
+    repository's response_from_xml of the decoded file, any form lib.response_j takes) against the ElementTree reading of
+    the same bytes, both canonicalised (sets sorted).  None = the same document; otherwise where they first differ."""
+    if repo_reading is None:
+        return "the repository's reader cannot read the file"
+    try:
+        doc = S.response_sorted_j(skr_document(xml_bytes))
+    except Exception as exc:  # noqa: BLE001
+        return f"a standard XML parser cannot read the file: {type(exc).__name__}: {str(exc)[:160]}"
+    return first_difference(S.response_sorted_j(repo_reading), doc)
+
+
+def _in_order_of(model: list[Any], doc: list[Any]) -> list[Any] | None:
+    import json
+
+    left = list(model)
+    out = []
+    for want in doc:
+        w = json.dumps(want, sort_keys=True)
+        for i, have in enumerate(left):
+            if json.dumps(have, sort_keys=True) == w:
+                out.append(left.pop(i))
+                break
+        else:
+            return None
+    return out if not left else None
+
+
+def align_to_document(model_skr: dict[str, Any], xml_bytes: bytes) -> dict[str, Any] | None:
+    """The SKR the MODEL writes, with the members of its sets (keys of a bundle — the writer sorts them by tag, stably —,
+    signatures of a bundle, algorithms of a policy) listed in the order the file shows: the order of a Python set is not
+    the model's to know.  Only a permutation: the content stays the model's.  None when some list is not a permutation of
+    the file's (the content differs; that is reported by the document-level comparisons)."""
+    try:
+        doc = skr_document(xml_bytes)
+    except Exception:  # noqa: BLE001
+        return None
+    out = dict(model_skr)
+    if len(doc["bundles"]) != len(model_skr["bundles"]):
+        return None
+    bundles = []
+    for mb, db in zip(model_skr["bundles"], doc["bundles"]):
+        nb = dict(mb)
+        for part in ("keys", "signatures"):
+            ordered = _in_order_of(mb[part], db[part])
+            if ordered is None:
+                return None
+            nb[part] = ordered
+        bundles.append(nb)
+    out["bundles"] = bundles
+    for pol in ("kskPolicy", "zskPolicy"):
+        ordered = _in_order_of(model_skr[pol]["algorithms"], doc[pol]["algorithms"])
+        if ordered is None:
+            return None
+        out[pol] = dict(model_skr[pol], algorithms=ordered)
+    return out
+
+
+WRITER_DRIVER = "kskm_driver_pkge"  # C11's model of skr_to_xml (lean/Kskm/SkrXml.lean), op `skr_to_xml`
+
+
+def ensure_writer_driver() -> bool:
+    """Build the writer model's driver through the build lock (a no-op when it is up to date)."""
+    import fcntl
+    import subprocess
+
+    try:
+        with open(lib.LEAN / ".build.lock", "w") as fd:
+            fcntl.flock(fd, fcntl.LOCK_EX)
+            try:
+                rc = subprocess.run(["lake", "build", WRITER_DRIVER], cwd=lib.LEAN, stdout=subprocess.PIPE, stderr=subprocess.STDOUT, timeout=3000).returncode
+            finally:
+                fcntl.flock(fd, fcntl.LOCK_UN)
+    except Exception:  # noqa: BLE001
+        return False
+    return rc == 0 and (lib.DRIVER.parent / WRITER_DRIVER).exists()
+
+
+def predicted_bytes(pairs: list[tuple[dict[str, Any], bytes]]) -> list[bytes | None | str]:
+    """For each (SKR the ceremony model writes, file the implementation wrote): the bytes the model's WRITER predicts —
+    skrToXml of the aligned SKR, UTF-8 — or None when the two are not the same document (reported elsewhere), or a
+    string describing why the writer model gave no text."""
+    import json
+
+    # many runs write the same SKR (every successful run of one ceremony): ask the writer model once per distinct pair
+    keys = [(f, json.dumps(m, sort_keys=True)) for m, f in pairs]
+    distinct = {k: i for i, k in reversed(list(enumerate(keys)))}  # key -> first index
+    aligned = {i: align_to_document(*pairs[i]) for i in distinct.values()}
+    idx = [i for i, a in aligned.items() if a is not None]
+    outs = lib.run_driver([{"op": "skr_to_xml", "response": aligned[i]} for i in idx], exe=WRITER_DRIVER)
+    first: dict[int, bytes | None | str] = {i: None for i in aligned}
+    for i, o in zip(idx, outs):
+        if isinstance(o, dict) and isinstance(o.get("ok"), str):
+            first[i] = o["ok"].encode("utf-8")
+        else:
+            first[i] = "writer model: " + str(o)[:200]
+    return [first[distinct[k]] for k in keys]
+
+
+def compare_written_bytes(res: Any, items: list[tuple[dict[str, Any], Any, dict[str, Any], bytes]], what: str = "ksrsigner") -> None:
+    """items: (case, implementation outcome, SKR the ceremony model writes, bytes the implementation wrote).  The bytes
+    must be exactly the UTF-8 text the model's writer gives for the model's SKR; differences are model/implementation
+    disagreements on a concrete input (`res` is a lib.Result)."""
+    if not items:
+        return
+    if not ensure_writer_driver():
+        res.notes.append("writer model driver (kskm_driver_pkge) could not be built: the byte-for-byte comparison was skipped")
+        return
+    for (case, outcome, _w, data), pb in zip(items, predicted_bytes([(w, f) for _, _, w, f in items])):
+        res.bump("written SKR compared byte for byte with the model writer's text")
+        if isinstance(pb, str):
+            res.disagreement(f"{what}: the model's writer gives no text for the SKR the model writes", case, outcome, pb)
+        elif pb is not None and pb != data:
+            k = next((i for i, (a, b) in enumerate(zip(pb, data)) if a != b), min(len(pb), len(data)))
+            res.disagreement(
+                f"{what}: the bytes at the output path are not the UTF-8 text of the SKR the model writes", case, outcome, {"ok": True},
+                first_differing_byte=k, bytes_in_file=data[max(0, k - 40) : k + 40].decode("utf-8", "replace"), bytes_of_model=pb[max(0, k - 40) : k + 40].decode("utf-8", "replace"), lengths=[len(data), len(pb)],
+            )
